@@ -15,6 +15,9 @@ var propOutcomes = []string{"acc", "conn", "nonce", "revert", "funds", "other"} 
 var extraOutcomes = []string{"closed", "hdr", "connsend"}
 var callNames = []string{"ur", "dr", "rg", "rn", "cm", "rv"}
 
+// every call that goes through the request queue (the six of the property and the four others)
+var queueCalls = []string{"ur", "dr", "rg", "rn", "cm", "rv", "sg", "un", "su", "sc"}
+
 func assignments(alphabet []string, n int, f func([]string)) {
 	cur := make([]string, n)
 	var rec func(i int)
@@ -82,7 +85,28 @@ func ridBoundary(rng *h.Rng, k int) string {
 	return h.Hex(rng.Bytes(1 + rng.Intn(31)))
 }
 
+func i64Boundary(rng *h.Rng, k int) string {
+	switch k % 7 {
+	case 0:
+		return "0"
+	case 1:
+		return "1"
+	case 2:
+		return "9223372036854775807"
+	case 3:
+		return "-1" // big.NewInt(int64): packed as two's complement, 32 bytes of 0xff
+	case 4:
+		return "-9223372036854775808"
+	case 5:
+		return fmt.Sprint(rng.Intn(1 << 30))
+	}
+	return fmt.Sprint(-1 - rng.Intn(1<<30))
+}
+
 func u256Boundary(rng *h.Rng, k int) string {
+	if k%13 == 12 {
+		return new(big.Int).Lsh(big.NewInt(1), 255).String()
+	}
 	switch k % 6 {
 	case 0:
 		return "0"
@@ -128,8 +152,25 @@ func callArgs(name string, rng *h.Rng, k int, big1MiB bool) string {
 			p = append(p, u256Boundary(rng, k+i))
 		}
 		return strings.Join(p, ";")
-	case "rn":
+	case "rn", "un":
 		return "-"
+	case "sg":
+		return []string{"0", "1", "21", "18446744073709551615", "4294967296"}[k%5]
+	case "su":
+		a := rng.Bytes(20)
+		switch k % 4 {
+		case 1:
+			a[0], a[1] = 0, 0
+		case 2:
+			a = make([]byte, 20)
+		case 3:
+			for i := range a {
+				a[i] = 0xff
+			}
+		}
+		return strings.Repeat("00", 20-len(a)) + strings.TrimPrefix(h.Hex(a), "-")
+	case "sc":
+		return fmt.Sprintf("%s;%s;%s;%s", i64Boundary(rng, k), i64Boundary(rng, k+1), i64Boundary(rng, k+2), i64Boundary(rng, k+3))
 	case "cm":
 		b := rng.Bytes(32)
 		switch k % 3 {
@@ -277,7 +318,8 @@ func gen(tier string, rng *h.Rng, emit func(string)) {
 	if thorough {
 		nb = 24
 	}
-	for _, nm := range callNames {
+	emit("sel")
+	for _, nm := range queueCalls {
 		for j := 0; j < nb; j++ {
 			n := 1 + j%2
 			emit(fmt.Sprintf("seq %s %s/%s/%s", cfg(), nm, callArgs(nm, rng, j, j == 4), strings.Join(make([]string, 0), "")+strings.TrimSuffix(strings.Repeat("acc,", n), ",")))
@@ -299,6 +341,46 @@ func gen(tier string, rng *h.Rng, emit func(string)) {
 		a[rng.Intn(n)] = extraOutcomes[rng.Intn(3)]
 		nm := callNames[rng.Intn(6)]
 		emit(fmt.Sprintf("seq %s %s/%s/%s", cfg(), nm, callArgs(nm, rng, rng.Intn(64), false), strings.Join(a, ",")))
+		k++
+	}
+	// result sizes around the 32-byte padding boundary and a few kB; every traffic type byte
+	for _, sz := range []int{0, 1, 2, 30, 31, 32, 33, 63, 64, 65, 95, 96, 97, 3000, 4095, 4096, 4097, 6000} {
+		c := "-"
+		if sz > 0 {
+			c = fmt.Sprintf("syn.%d.%d.%d", sz, 1+rng.Intn(250), rng.Intn(256))
+		}
+		emit(fmt.Sprintf("seq %s dr/%s;%s;%d;%s/acc", cfg(), sigBoundary(rng, sz), ridBoundary(rng, sz), rng.Intn(300), c))
+		k++
+	}
+	// nonces across the queue: successive calls through one adaptor, refused sends and failover in between
+	// (an endpoint's pending nonce moves only when it has accepted a transaction)
+	for _, hist := range []string{
+		"rn/-/acc rn/-/acc rn/-/acc",
+		"rn/-/revert rn/-/acc rn/-/funds rn/-/acc",
+		"rn/-/other,acc rn/-/acc,acc rn/-/other,acc rn/-/acc,acc",
+		"rn/-/nonce,acc rn/-/acc,acc rn/-/acc,acc",
+		"rn/-/conn,other,acc rn/-/acc,acc,acc rn/-/acc,revert,acc rn/-/acc,acc,acc",
+		"un/-/acc,acc rn/-/hdr,acc un/-/acc,acc rn/-/connsend,acc rn/-/acc,acc",
+	} {
+		emit(fmt.Sprintf("seq %s %s", cfg(), hist))
+		k++
+	}
+	nn := 20
+	if thorough {
+		nn = 200
+	}
+	for j := 0; j < nn; j++ {
+		n := 1 + rng.Intn(3)
+		var cs []string
+		for c := 4 + rng.Intn(5); c > 0; c-- {
+			a := make([]string, n)
+			for i := range a {
+				a[i] = []string{"acc", "acc", "acc", "other", "revert", "funds", "hdr"}[rng.Intn(7)]
+			}
+			nm := queueCalls[rng.Intn(len(queueCalls))]
+			cs = append(cs, fmt.Sprintf("%s/%s/%s", nm, callArgs(nm, rng, rng.Intn(64), false), strings.Join(a, ",")))
+		}
+		emit(fmt.Sprintf("seq %s %s", cfg(), strings.Join(cs, " ")))
 		k++
 	}
 	// sequences of calls on one adaptor: endpoints cancelled by earlier failures stay out
